@@ -49,6 +49,8 @@ pub enum FTy {
     /// nested generated type (schema id)
     Nested(usize),
     OptNested(usize),
+    /// a generic parameter `G` instantiated with `Option<T{id}>`: optional only through `Decode::nil` / `Encode::is_nil`
+    GenericOptNested(usize),
     /// generic parameter `G`, instantiated with u8
     GenericU8,
     /// generic parameter `G`, instantiated with Option<u8>
@@ -183,12 +185,12 @@ impl GenVal {
 impl FTy {
     /// Can the field be absent (its type has a nil value)?
     pub fn nilable(&self) -> bool {
-        matches!(self, FTy::OptU8 | FTy::OptStr | FTy::OptBytesRef | FTy::OptByteVec | FTy::OptNested(_) | FTy::GenericOptU8 | FTy::NilU8Fns | FTy::NilU8FnsB | FTy::NilU8FnsC | FTy::NilU8FnsD | FTy::NilU8With | FTy::OptIndefArr)
+        matches!(self, FTy::OptU8 | FTy::OptStr | FTy::OptBytesRef | FTy::OptByteVec | FTy::OptNested(_) | FTy::GenericOptNested(_) | FTy::GenericOptU8 | FTy::NilU8Fns | FTy::NilU8FnsB | FTy::NilU8FnsC | FTy::NilU8FnsD | FTy::NilU8With | FTy::OptIndefArr)
     }
     pub fn has_lifetime(&self, all: &[Schema]) -> bool {
         match self {
             FTy::StrRef | FTy::CowStr | FTy::OptBytesRef | FTy::CowBytes | FTy::ByteSliceRef => true,
-            FTy::Nested(j) | FTy::OptNested(j) => all[*j].has_lifetime(all),
+            FTy::Nested(j) | FTy::OptNested(j) | FTy::GenericOptNested(j) => all[*j].has_lifetime(all),
             _ => false,
         }
     }
@@ -204,11 +206,12 @@ impl Schema {
     pub fn has_lifetime(&self, all: &[Schema]) -> bool {
         self.all_fields().iter().any(|f| f.ty.has_lifetime(all))
     }
-    pub fn generic(&self) -> Option<&'static str> {
+    pub fn generic(&self) -> Option<String> {
         for f in self.all_fields() {
             match f.ty {
-                FTy::GenericU8 => return Some("u8"),
-                FTy::GenericOptU8 => return Some("Option<u8>"),
+                FTy::GenericU8 => return Some("u8".to_string()),
+                FTy::GenericOptU8 => return Some("Option<u8>".to_string()),
+                FTy::GenericOptNested(j) => return Some(format!("Option<T{}>", j)),
                 _ => {}
             }
         }
@@ -241,7 +244,7 @@ pub fn field_values(ty: &FTy, all: &[Schema], salt: u8) -> Vec<GenVal> {
             let v = values(&all[*j], all);
             pick(v, 3)
         }
-        FTy::OptNested(j) => {
+        FTy::OptNested(j) | FTy::GenericOptNested(j) => {
             let v = values(&all[*j], all);
             let mut out: Vec<GenVal> = vec![];
             let picked = pick(v, 3);
@@ -326,7 +329,7 @@ pub fn normalise(s: &Schema, all: &[Schema], v: &GenVal) -> GenVal {
                 }
                 match (&f.ty, v) {
                     (FTy::Nested(j), x) => normalise(&all[*j], all, x),
-                    (FTy::OptNested(j), GenVal::Opt(Some(x))) => GenVal::some(normalise(&all[*j], all, x)),
+                    (FTy::OptNested(j) | FTy::GenericOptNested(j), GenVal::Opt(Some(x))) => GenVal::some(normalise(&all[*j], all, x)),
                     _ => v.clone(),
                 }
             })
@@ -361,7 +364,7 @@ fn encode_field_value(ty: &FTy, all: &[Schema], v: &GenVal) -> Item {
         (FTy::IndefArr, GenVal::Bytes(b)) => Item::Array(b.iter().map(|x| Item::uint(*x as u64)).collect(), Len::Indef),
         (FTy::OptIndefArr, GenVal::Opt(Some(x))) => Item::Array(x.bytes().iter().map(|x| Item::uint(*x as u64)).collect(), Len::Indef),
         (FTy::Nested(j), x) => schema_encode(&all[*j], all, x),
-        (FTy::OptNested(j), GenVal::Opt(Some(x))) => schema_encode(&all[*j], all, x),
+        (FTy::OptNested(j) | FTy::GenericOptNested(j), GenVal::Opt(Some(x))) => schema_encode(&all[*j], all, x),
         (t, v) => panic!("value {:?} does not fit field type {:?}", v, t),
     }
 }
@@ -513,7 +516,7 @@ fn decode_field_value(ty: &FTy, all: &[Schema], i: &Item) -> R {
         FTy::OptStr => opt(text_of(i).map(GenVal::Str)),
         FTy::OptBytesRef | FTy::OptByteVec => opt(bytes_of(i).map(GenVal::Bytes)),
         FTy::OptIndefArr => opt(u8_array_of(i).map(GenVal::Bytes)),
-        FTy::OptNested(j) => opt(decode_inner(&all[*j], all, i)),
+        FTy::OptNested(j) | FTy::GenericOptNested(j) => opt(decode_inner(&all[*j], all, i)),
     }
 }
 
@@ -537,7 +540,7 @@ fn decode_fields(fields: &[FieldS], enc: Enc, all: &[Schema], i: &Item) -> Resul
             }
             // "optional enums default to None if an unknown variant is encountered"
             Err(Stop::Err(ErrKind::UnknownVariant)) if f.ty.nilable() => match &f.ty {
-                FTy::OptNested(j) if matches!(all[*j].kind, Kind::Enum(_)) => {
+                FTy::OptNested(j) | FTy::GenericOptNested(j) if matches!(all[*j].kind, Kind::Enum(_)) => {
                     slots[k] = Some(GenVal::none());
                     Ok(())
                 }
@@ -658,7 +661,7 @@ impl Builder {
             let all = &self.all;
             let fix = |fields: &mut Vec<FieldS>| {
                 for f in fields.iter_mut() {
-                    if let FTy::Nested(j) | FTy::OptNested(j) = &f.ty {
+                    if let FTy::Nested(j) | FTy::OptNested(j) | FTy::GenericOptNested(j) = &f.ty {
                         if all[*j].has_lifetime(all) {
                             f.borrow = true;
                         }
@@ -974,6 +977,15 @@ fn enumerate_schemas_base(thorough: bool) -> Vec<Schema> {
             b.push("G-type", false, Kind::Struct(StructS { shape, enc: None, tag: None, transparent: true, fields: vec![f] }));
         }
     }
+    // transparent newtypes whose field carries a tag attribute: "transparent newtypes encode as their field" - the
+    // struct's own layer, including anything attached to the field position, is not on the wire
+    for ty in [FTy::U8, FTy::Str, FTy::OptU8] {
+        for shape in [Shape::Named, Shape::Tuple] {
+            let mut f = fld(0, ty.clone());
+            f.tag = Some(1);
+            b.push("G-type", false, Kind::Struct(StructS { shape, enc: None, tag: None, transparent: true, fields: vec![f] }));
+        }
+    }
     // skipped fields
     for shape in [Shape::Named, Shape::Tuple] {
         for enc in [None, Some(Enc::Map)] {
@@ -1030,7 +1042,7 @@ fn ty_src(ty: &FTy, all: &[Schema]) -> String {
         FTy::ByteArrayT => "minicbor::bytes::ByteArray<4>".into(),
         FTy::Nested(j) => type_use(&all[*j], all, "'a"),
         FTy::OptNested(j) => format!("Option<{}>", type_use(&all[*j], all, "'a")),
-        FTy::GenericU8 | FTy::GenericOptU8 => "G".into(),
+        FTy::GenericU8 | FTy::GenericOptU8 | FTy::GenericOptNested(_) => "G".into(),
         FTy::NilU8Fns | FTy::NilU8FnsB | FTy::NilU8FnsC | FTy::NilU8FnsD | FTy::NilU8With => "derive_rt::NilU8".into(),
         FTy::IndefArr => "derive_rt::IndefArr".into(),
         FTy::OptIndefArr => "Option<derive_rt::IndefArr>".into(),
@@ -1153,7 +1165,7 @@ fn make_expr(f: &FieldS, x: &str) -> String {
         FTy::ByteSliceRef => format!("<&minicbor::bytes::ByteSlice>::from({}.bytes())", x),
         FTy::ByteArrayT => format!("minicbor::bytes::ByteArray::from(<[u8; 4]>::try_from({}.bytes()).unwrap())", x),
         FTy::Nested(j) => format!("make_{}(&{})", j, x),
-        FTy::OptNested(j) => format!("{}.opt().map(|y| make_{}(y))", x, j),
+        FTy::OptNested(j) | FTy::GenericOptNested(j) => format!("{}.opt().map(|y| make_{}(y))", x, j),
         FTy::NilU8Fns | FTy::NilU8FnsB | FTy::NilU8FnsC | FTy::NilU8FnsD | FTy::NilU8With => format!("derive_rt::NilU8({}.opt().map(|y| y.u8()))", x),
         FTy::IndefArr => format!("derive_rt::IndefArr({}.bytes().to_vec())", x),
         FTy::OptIndefArr => format!("{}.opt().map(|y| derive_rt::IndefArr(y.bytes().to_vec()))", x),
@@ -1175,7 +1187,7 @@ fn view_expr(f: &FieldS, t: &str) -> String {
         FTy::ByteArr4 | FTy::CowBytes | FTy::ByteSliceRef | FTy::ByteArrayT => format!("GenVal::Bytes({}.to_vec())", t),
         FTy::OptByteVec => format!("GenVal::Opt({}.as_ref().map(|y| Box::new(GenVal::Bytes(y.to_vec()))))", t),
         FTy::Nested(j) => format!("view_{}({})", j, t),
-        FTy::OptNested(j) => format!("GenVal::Opt({}.as_ref().map(|y| Box::new(view_{}(y))))", t, j),
+        FTy::OptNested(j) | FTy::GenericOptNested(j) => format!("GenVal::Opt({}.as_ref().map(|y| Box::new(view_{}(y))))", t, j),
         FTy::NilU8Fns | FTy::NilU8FnsB | FTy::NilU8FnsC | FTy::NilU8FnsD | FTy::NilU8With => format!("GenVal::Opt({}.0.map(|y| Box::new(GenVal::U8(y))))", t),
         FTy::IndefArr => format!("GenVal::Bytes({}.0.clone())", t),
         FTy::OptIndefArr => format!("GenVal::Opt({}.as_ref().map(|y| Box::new(GenVal::Bytes(y.0.clone()))))", t),
@@ -1402,6 +1414,15 @@ fn compat_family(b: &mut Builder) -> Vec<Pair> {
         let b2 = mk(b, vec![fld(0, FTy::OptU8), fld(2, FTy::U8)]);
         let b3 = mk(b, vec![fld(0, FTy::OptNested(e0)), fld(2, FTy::U8)]);
         let b4 = mk(b, vec![fld(0, FTy::OptNested(i0)), fld(2, FTy::U8)]);
+        // the enum-typed optional field spelled through a generic parameter (G = Option<E>)
+        let b3g = mk(b, vec![fld(0, FTy::GenericOptNested(e0)), fld(2, FTy::U8)]);
+        let b4g = mk(b, vec![fld(0, FTy::GenericOptNested(i0)), fld(2, FTy::U8)]);
+        for (e, what) in &e_edits {
+            let n = mk(b, vec![fld(0, FTy::GenericOptNested(*e)), fld(2, FTy::U8)]);
+            pairs.push(Pair { old: b3g, new: n, edit: format!("{}: enum in an optional field spelled as a generic parameter G = Option<E>: {}", en, what), compatible: true });
+        }
+        let ng = mk(b, vec![fld(0, FTy::GenericOptNested(i1)), fld(2, FTy::U8)]);
+        pairs.push(Pair { old: b4g, new: ng, edit: format!("{}: index_only enum in an optional field spelled as a generic parameter: add a variant", en), compatible: true });
         let only_z = mk(b, vec![fld(2, FTy::U8)]);
         pairs.push(Pair { old: b2, new: only_z, edit: format!("{}: drop the optional field at index 0", en), compatible: true });
         pairs.push(Pair { old: only_z, new: b1, edit: format!("{}: (incompatible) add a mandatory field at index 0", en), compatible: false });
